@@ -247,3 +247,655 @@ end Dulwich.Gen.TreeOps
 """
     translate.fingerprints = fps
     return {"TreeOps": src}
+
+
+# ------------------------------------------------------------------------------------------------
+# shared vocabulary: blob pool, modes, encodings
+
+REG, EXE, LNK, GITLINK, DIR = 0o100644, 0o100755, 0o120000, 0o160000, 0o040000
+GROUPW = 0o100664  # accepted by Tree.check(); rarely generated
+MODES = [REG, REG, REG, EXE, LNK, GITLINK]
+
+
+def _pool():
+    """Blob contents with graded similarity so that content rename detection has something to find."""
+    base = b"".join(b"line %d of the base file\n" % i for i in range(40))
+    out = [b"", b"x", b"y\n", base, base + b"tail\n", base.replace(b"line 7 ", b"LINE 7 "),
+           base[: len(base) // 2] + b"other half\n" * 20, b"target/of/symlink", b"a", b"\x00\xff" * 40,
+           bytes(range(256)), b"unrelated\n" * 30]
+    return out
+
+
+POOL = _pool()
+
+
+def blob_id(data: bytes) -> str:
+    return hashlib.sha1(b"blob %d\0" % len(data) + data).hexdigest()
+
+
+POOL_IDS = [blob_id(d) for d in POOL]
+COMMIT_IDS = [hashlib.sha1(b"fake commit %d" % i).hexdigest() for i in range(3)]
+EMPTY_TREE = "4b825dc642cb6eb9a060e54bf8d69288fbee4904"
+
+FLAG_COMBOS = ["".join(t) for t in itertools.product("01", repeat=3)]  # want_unchanged include_trees change_type_same
+
+
+def enc_listing(l) -> str:
+    """listing = list of (path bytes, mode, hex id) -> driver token"""
+    if l is None:
+        return "~"
+    if not l:
+        return "."
+    return ",".join(f"{hx(p)}:{m}:{i}" for p, m, i in l)
+
+
+def dec_listing(tok: str):
+    if tok == ".":
+        return []
+    out = []
+    for it in tok.split(","):
+        p, m, i = it.split(":")
+        out.append((unhx(p), int(m), i))
+    return out
+
+
+def enc_entry(e) -> str:
+    return "~" if e is None else f"{hx(e[0])};{e[1]};{e[2]}"
+
+
+def enc_changes(cs) -> str:
+    """changes = list of (type, old|None, new|None), old/new = (path, mode, hexid)"""
+    if not cs:
+        return "."
+    return ",".join(f"{t}:{enc_entry(o)}:{enc_entry(n)}" for t, o, n in cs)
+
+
+def dec_changes(tok: str):
+    if tok == ".":
+        return []
+    out = []
+    for it in tok.split(","):
+        t, o, n = it.split(":")
+
+        def de(s):
+            if s == "~":
+                return None
+            p, m, i = s.split(";")
+            return (unhx(p), int(m), i)
+        out.append((t, de(o), de(n)))
+    return out
+
+
+def enc_tchanges(tcs) -> str:
+    if not tcs:
+        return "."
+    return ",".join(f"{hx(p)}:~" if m is None else f"{hx(p)}:{m}:{i}" for p, m, i in tcs)
+
+
+def enc_filter(f) -> str:
+    if f is None:
+        return "~"
+    return "f" + "".join("," + hx(p) for p in f)
+
+
+def jl(l):
+    """listing -> JSON-able"""
+    return None if l is None else [[hx(p), m, i] for p, m, i in l]
+
+
+def unjl(l):
+    return None if l is None else [(unhx(p), m, i) for p, m, i in l]
+
+
+# ------------------------------------------------------------------------------------------------
+# worker-side implementation adapters (run inside harness/worker.py children; real dulwich code only)
+
+def _entry(e):
+    return None if e is None else [hx(e.path), e.mode, e.sha.decode("ascii")]
+
+
+def _change(c):
+    return [c.type, _entry(c.old), _entry(c.new)]
+
+
+def _exc(e):
+    return {"exc": type(e).__name__}
+
+
+def _to_tchanges(changes):
+    """what a caller patching a tree with a diff passes to commit_tree_changes"""
+    out = []
+    for t, o, n in changes:
+        if t == "delete":
+            out.append((unhx(o[0]), None, None))
+        elif t in ("add", "modify", "copy"):
+            out.append((unhx(n[0]), n[1], n[2].encode()))
+        elif t == "rename":
+            out.append((unhx(o[0]), None, None))
+            out.append((unhx(n[0]), n[1], n[2].encode()))
+    return out
+
+
+RENAME_CONFIGS = [
+    ("default", {}),
+    ("low-harder", {"rename_threshold": 30, "find_copies_harder": True}),
+    ("rewrite", {"rewrite_threshold": 60}),
+    ("nocontent", {"max_files": 0}),
+    ("rewrite-harder", {"rewrite_threshold": 101, "rename_threshold": 0, "find_copies_harder": True}),
+]
+
+
+def _one_case(c):
+    from dulwich.object_store import MemoryObjectStore, commit_tree_changes, iter_tree_contents, tree_lookup_path
+    from dulwich.index import commit_tree
+    from dulwich.objects import Blob, Tree
+    from dulwich.diff_tree import tree_changes, RenameDetector
+    store = MemoryObjectStore()
+    for d in POOL:
+        store.add_object(Blob.from_string(d))
+    nblobs = len(list(store))
+    out = {}
+    ids = {}
+    for side in ("a", "b"):
+        l = c.get(side)
+        if l is None:
+            ids[side] = None
+            out["id_" + side] = None
+            continue
+        try:
+            before = set(store)
+            tid = commit_tree(store, [(unhx(p), i.encode(), m) for p, m, i in l])
+            ids[side] = tid
+            out["id_" + side] = tid.decode()
+            new = set(store) - before
+            if side == "a":
+                # every tree object reachable from the root, raw
+                trees = {}
+                todo = [tid]
+                while todo:
+                    t = todo.pop()
+                    o = store[t]
+                    trees[t.decode()] = hx(o.as_raw_string())
+                    for e in o.iteritems():
+                        if e.mode == 0o040000:
+                            todo.append(e.sha)
+                out["trees_a"] = trees
+                out["new_a"] = sorted(x.decode() for x in new)
+        except Exception as e:
+            ids[side] = None
+            out["id_" + side] = _exc(e)
+            out["failed"] = True
+    if out.get("failed"):
+        return out
+    for side in ("a", "b"):
+        for inc in (False, True):
+            out[f"flat_{side}{int(inc)}"] = [_entry(e) for e in iter_tree_contents(store, ids[side], include_trees=inc)]
+    ch = {}
+    filters = [None] + [[unhx(p) for p in f] for f in c.get("filters", [])]
+    combos = FLAG_COMBOS if c.get("full", True) else ["000", "001"]
+    for fi, flt in enumerate(filters):
+        for fl in combos:
+            try:
+                ch[f"{fl}/{fi}"] = [_change(x) for x in tree_changes(
+                    store, ids["a"], ids["b"], want_unchanged=fl[0] == "1", include_trees=fl[1] == "1",
+                    change_type_same=fl[2] == "1", paths=flt)]
+            except Exception as e:
+                ch[f"{fl}/{fi}"] = _exc(e)
+    out["changes"] = ch
+    if c.get("full", True) and ids["a"] is not None and ids["b"] is not None:
+        rn = {}
+        for name, kw in RENAME_CONFIGS:
+            for wu in (False, True):
+                for inc in (False, True):
+                    try:
+                        det = RenameDetector(store, **kw)
+                        rn[f"{name}/{int(wu)}{int(inc)}"] = [_change(x) for x in tree_changes(
+                            store, ids["a"], ids["b"], want_unchanged=wu, include_trees=inc, rename_detector=det)]
+                    except Exception as e:
+                        rn[f"{name}/{int(wu)}{int(inc)}"] = _exc(e)
+        out["rename"] = rn
+    # commit_tree_changes with the diff (default flags, and change_type_same) as the change list
+    if ids["a"] is not None:
+        ctc = {}
+        for fl in ("000", "001"):
+            base = ch.get(fl + "/0")
+            if not isinstance(base, list):
+                continue
+            try:
+                r = commit_tree_changes(store, ids["a"], _to_tchanges(base))
+                ctc[fl] = r.decode()
+            except (Exception, AssertionError) as e:
+                ctc[fl] = _exc(e)
+        if c.get("full", True) and isinstance(out.get("rename", {}).get("default/00"), list):
+            try:
+                ctc["rename"] = commit_tree_changes(store, ids["a"], _to_tchanges(out["rename"]["default/00"])).decode()
+            except (Exception, AssertionError) as e:
+                ctc["rename"] = _exc(e)
+        for k, tcs in enumerate(c.get("tchanges", [])):
+            try:
+                r = commit_tree_changes(store, ids["a"], [(unhx(p), m, None if i is None else i.encode()) for p, m, i in tcs])
+                ctc[f"x{k}"] = r.decode()
+                ctc[f"x{k}_flat"] = [_entry(e) for e in iter_tree_contents(store, r)]
+            except (Exception, AssertionError) as e:
+                ctc[f"x{k}"] = _exc(e)
+        out["ctc"] = ctc
+        # the store must still hold the original tree under its id
+        try:
+            o = store[ids["a"]]
+            out["a_intact"] = hashlib.sha1(b"tree %d\0" % len(o.as_raw_string()) + o.as_raw_string()).hexdigest() == ids["a"].decode()
+        except Exception as e:
+            out["a_intact"] = _exc(e)
+        lk = {}
+        for p in c.get("lookups", []):
+            try:
+                m, s = tree_lookup_path(store.__getitem__, ids["a"], unhx(p))
+                lk[p] = [m, s.decode()]
+            except Exception as e:
+                lk[p] = _exc(e)
+        out["lookups"] = lk
+    return out
+
+
+def impl_cases(a):
+    return [_one_case(c) for c in a["cases"]]
+
+
+def impl_merge(a):
+    """_merge_entries(path, tree1, tree2) on trees given as entry lists"""
+    import dulwich.diff_tree as DT
+    from dulwich.objects import Tree
+    res = []
+    for path, e1, e2 in a["cases"]:
+        ts = []
+        for es in (e1, e2):
+            t = Tree()
+            for n, m, i in es:
+                t.add(unhx(n), m, i.encode())
+            ts.append(t)
+        r = DT._merge_entries(unhx(path), ts[0], ts[1])
+        res.append([[_entry(x), _entry(y)] for x, y in r])
+    return res
+
+
+def impl_which(a):
+    import dulwich.diff_tree as DT
+    import dulwich.objects as O
+    return {"merge": getattr(DT._merge_entries, "__module__", "?") or "builtin",
+            "sorted_tree_items": getattr(O.sorted_tree_items, "__module__", "?") or "builtin", "file": DT.__file__}
+
+
+# ------------------------------------------------------------------------------------------------
+# independent reference implementations used by the direct oracle (no dulwich, no model)
+
+def comps(p: bytes):
+    return tuple(p.split(b"/"))
+
+
+def valid_listing(l) -> bool:
+    """paths non-empty, components non-empty, no duplicates, no path a proper directory-prefix of another,
+    no directory modes"""
+    seen = set()
+    for p, m, i in l:
+        c = comps(p)
+        if not p or any(x == b"" for x in c) or c in seen or pystat.S_ISDIR(m):
+            return False
+        seen.add(c)
+    for c in seen:
+        for k in range(1, len(c)):
+            if c[:k] in seen:
+                return False
+    return True
+
+
+def nest(l):
+    """flat listing -> nested dict (independent of dulwich)"""
+    root = {}
+    for p, m, i in l:
+        d = root
+        c = comps(p)
+        for x in c[:-1]:
+            d = d.setdefault(x, {})
+        d[c[-1]] = (m, i)
+    return root
+
+
+def ref_tree_ids(l):
+    """Merkle ids computed with hashlib from the nested dict, entries in git's canonical order.
+    Returns (root id, {id: [(name, mode, id)] in canonical order})."""
+    trees = {}
+
+    def build(d):
+        ents = []
+        for name, v in d.items():
+            if isinstance(v, dict):
+                ents.append((name, DIR, build(v)))
+            else:
+                ents.append((name, v[0], v[1]))
+        ents.sort(key=lambda e: e[0] + b"/" if e[1] == DIR else e[0])
+        body = b"".join(b"%o %s\0" % (m, n) + bytes.fromhex(i) for n, m, i in ents)
+        tid = hashlib.sha1(b"tree %d\0" % len(body) + body).hexdigest()
+        trees[tid] = ents
+        return tid
+    return build(nest(l)), trees
+
+
+def parse_raw_tree(raw: bytes):
+    out = []
+    i = 0
+    while i < len(raw):
+        sp = raw.index(b" ", i)
+        nul = raw.index(b"\0", sp)
+        out.append((raw[sp + 1:nul], int(raw[i:sp], 8), raw[nul + 1:nul + 21].hex(), raw[i:sp]))
+        i = nul + 21
+    return out
+
+
+def ref_apply(changes, listing):
+    """patch a flat listing (dict path -> (mode, id)): first every removal, then every installation"""
+    d = {p: (m, i) for p, m, i in listing}
+    for t, o, n in changes:
+        if t in ("delete", "modify", "rename"):
+            d.pop(o[0], None)
+    for t, o, n in changes:
+        if t in ("add", "modify", "rename", "copy"):
+            d[n[0]] = (n[1], n[2])
+    return d
+
+
+def ref_tchanges(changes):
+    out = []
+    for t, o, n in changes:
+        if t == "delete":
+            out.append((o[0], None, None))
+        elif t in ("add", "modify", "copy"):
+            out.append((n[0], n[1], n[2]))
+        elif t == "rename":
+            out.append((o[0], None, None))
+            out.append((n[0], n[1], n[2]))
+    return out
+
+
+def change_path(c):
+    t, o, n = c
+    return o[0] if n is None else n[0]
+
+
+def matches_filter(p: bytes, flt) -> bool:
+    return any(p == f or p.startswith(f + b"/") for f in flt)
+
+
+def unj_changes(js):
+    def e(x):
+        return None if x is None else (unhx(x[0]), x[1], x[2])
+    return [(t, e(o), e(n)) for t, o, n in js]
+
+
+def unj_entries(js):
+    return [(unhx(p), m, i) for p, m, i in js]
+
+
+# ------------------------------------------------------------------------------------------------
+# C git as a third party
+
+class Git:
+    def __init__(self, ctx):
+        self.dir = ctx.scratch / "cgit"
+        self.env = core.clean_env()
+        core.sh(["git", "init", "-q", "--bare", str(self.dir)], env=self.env, check=True)
+        for d in POOL:
+            p = subprocess.run(["git", "--git-dir", str(self.dir), "hash-object", "-w", "--stdin"], input=d,
+                               stdout=subprocess.PIPE, env=self.env, check=True)
+            assert p.stdout.decode().strip() == blob_id(d)
+        self.calls = 0
+
+    def _run(self, args, data=b""):
+        self.calls += 1
+        p = subprocess.run(["git", "--git-dir", str(self.dir)] + args, input=data, stdout=subprocess.PIPE,
+                           stderr=subprocess.PIPE, env=self.env)
+        if p.returncode != 0:
+            raise core.InfraError(f"git {args} failed: {p.stderr.decode(errors='replace')[:400]}")
+        return p.stdout
+
+    def mktree(self, ents):
+        """ents: [(name, mode, hexid)] in ANY order -> id git computes (git sorts itself)"""
+        if not ents:
+            return EMPTY_TREE
+        data = b"".join(b"%06o %s %s\t%s\0" % (m, b"tree" if m == DIR else b"commit" if m == GITLINK else b"blob",
+                                                i.encode(), n) for n, m, i in ents)
+        return self._run(["mktree", "-z", "--missing"], data).decode().strip()
+
+    def tree_of_listing(self, l):
+        """root id C git computes for the flat listing (bottom-up mktree over an independently nested dict)"""
+        def build(d):
+            ents = []
+            for name, v in d.items():
+                ents.append((name, DIR, build(v)) if isinstance(v, dict) else (name, v[0], v[1]))
+            return self.mktree(ents)
+        return build(nest(l))
+
+    def diff_tree(self, a, b, renames=False):
+        """git diff-tree -r --raw -z: list of (status, oldmode, newmode, oldid, newid, path[, path2])"""
+        args = ["diff-tree", "-r", "--raw", "-z", "--no-abbrev"] + (["-M", "-C", "--find-copies-harder"] if renames else ["--no-renames"])
+        out = self._run(args + [a, b])
+        toks = out.split(b"\0")
+        res = []
+        i = 0
+        while i < len(toks) and toks[i]:
+            meta = toks[i].decode().lstrip(":").split(" ")
+            om, nm, oi, ni, st = int(meta[0], 8), int(meta[1], 8), meta[2], meta[3], meta[4]
+            if st[0] in "RC":
+                res.append((st[0], om, nm, oi, ni, toks[i + 1], toks[i + 2]))
+                i += 3
+            else:
+                res.append((st[0], om, nm, oi, ni, toks[i + 1]))
+                i += 2
+        return res
+
+
+def git_expected_from_changes(changes):
+    """dulwich changes (no renames) -> the set of raw diff lines C git prints (status, oldmode, newmode, oldid, newid, path);
+    a delete and an add of the same path (type change reported as delete+add) merge into one `T` line."""
+    Z = "0" * 40
+    dels = {c[1][0]: c[1] for c in changes if c[0] == "delete"}
+    adds = {c[2][0]: c[2] for c in changes if c[0] == "add"}
+    res = set()
+    for p in set(dels) & set(adds):
+        o, n = dels.pop(p), adds.pop(p)
+        res.add(("T", o[1], n[1], o[2], n[2], p))
+    for p, o in dels.items():
+        res.add(("D", o[1], 0, o[2], Z, p))
+    for p, n in adds.items():
+        res.add(("A", 0, n[1], Z, n[2], p))
+    for t, o, n in changes:
+        if t == "modify":
+            st = "T" if pystat.S_IFMT(o[1]) != pystat.S_IFMT(n[1]) else "M"
+            res.add((st, o[1], n[1], o[2], n[2], n[0]))
+    return res
+
+
+# ------------------------------------------------------------------------------------------------
+# generators
+
+COMPS = [b"a", b"a", b"b", b"c", b"a.b", b"a-", b"a0", b"a.", b"b.c", b"b-", b"b0", b"A", b"\xff", b"a b", b"ab", b"a\x01"]
+ALPHA_PATHS = [b"a", b"a.b", b"a/b", b"a-", b"a0", b"a/b/c", b"b"]
+
+
+def gen_leaf(rng):
+    m = rng.choice(MODES)
+    if rng.random() < 0.02:
+        m = GROUPW
+    if m == GITLINK:
+        return m, rng.choice(COMMIT_IDS)
+    if m == LNK:
+        return m, rng.choice([POOL_IDS[7], POOL_IDS[8], POOL_IDS[1]])
+    return m, rng.choice(POOL_IDS)
+
+
+def gen_path(rng, deep=False):
+    r = rng.random()
+    if r < 0.45:
+        return rng.choice(ALPHA_PATHS)
+    depth = rng.choice([1, 1, 2, 2, 3, 4]) if not deep else rng.choice([5, 6, 8, 12])
+    return b"/".join(rng.choice(COMPS) for _ in range(depth))
+
+
+def add_path(listing_dict, p, leaf):
+    """add p unless it conflicts (file/dir) with what is there; returns True when added"""
+    c = comps(p)
+    for q in listing_dict:
+        cq = comps(q)
+        k = min(len(c), len(cq))
+        if c[:k] == cq[:k] and len(c) != len(cq):
+            return False
+    listing_dict[p] = leaf
+    return True
+
+
+def gen_listing(rng, n=None, deep=False):
+    n = rng.choice([0, 1, 2, 3, 4, 6, 9, 14]) if n is None else n
+    d = {}
+    for _ in range(n * 2):
+        if len(d) >= n:
+            break
+        add_path(d, gen_path(rng, deep and rng.random() < 0.3), gen_leaf(rng))
+    return d
+
+
+MUTATIONS = ["content", "mode", "type", "file2dir", "dir2file", "delete", "delete-dir", "add", "rename", "copy",
+             "rename-edit", "swap", "move-dir", "add-sibling"]
+
+
+def mutate(rng, d):
+    """one edit of a listing dict (path -> (mode, id)); returns the kind applied (or None)"""
+    kind = rng.choice(MUTATIONS)
+    paths = sorted(d)
+    if kind in ("add", "add-sibling") or not paths:
+        if kind == "add-sibling" and paths:
+            p = rng.choice(paths)
+            base = p.rsplit(b"/", 1)
+            sib = rng.choice([b"", b".b", b"-", b"0", b".", b"/x"])
+            q = (base[0] + b"/" if len(base) == 2 else b"") + base[-1].split(b".")[0][:1] + sib
+            if not q or q.endswith(b"/"):
+                return None
+            return kind if q not in d and add_path(d, q, gen_leaf(rng)) else None
+        return "add" if add_path(d, gen_path(rng), gen_leaf(rng)) else None
+    p = rng.choice(paths)
+    m, i = d[p]
+    if kind == "content":
+        d[p] = (m, rng.choice(COMMIT_IDS) if m == GITLINK else rng.choice(POOL_IDS))
+    elif kind == "mode":
+        d[p] = ({REG: EXE, EXE: REG}.get(m, m), i)
+    elif kind == "type":
+        m2 = rng.choice([x for x in (REG, LNK, GITLINK, EXE) if x != m])
+        keep = rng.random() < 0.5 and m2 != GITLINK and m != GITLINK
+        d[p] = (m2, i if keep else (rng.choice(COMMIT_IDS) if m2 == GITLINK else rng.choice(POOL_IDS)))
+    elif kind == "file2dir":
+        del d[p]
+        for _ in range(rng.randint(1, 3)):
+            d[p + b"/" + rng.choice(COMPS)] = (m, i) if rng.random() < 0.5 else gen_leaf(rng)
+    elif kind in ("dir2file", "delete-dir", "move-dir"):
+        c = comps(p)
+        if len(c) < 2:
+            return None
+        k = rng.randint(1, len(c) - 1)
+        pre = b"/".join(c[:k])
+        under = [q for q in paths if q.startswith(pre + b"/")]
+        moved = {q: d.pop(q) for q in under}
+        if kind == "dir2file":
+            d[pre] = gen_leaf(rng) if rng.random() < 0.5 else (m, i)
+        elif kind == "move-dir":
+            new = gen_path(rng)
+            tmp = dict(d)
+            ok = all(add_path(tmp, new + q[len(pre):], v) for q, v in moved.items())
+            if ok:
+                d.clear()
+                d.update(tmp)
+            else:
+                d.update(moved)
+                return None
+    elif kind == "delete":
+        del d[p]
+    elif kind in ("rename", "copy", "rename-edit"):
+        q = gen_path(rng)
+        if q in d:
+            return None
+        leaf = (m, i)
+        if kind == "rename-edit" and m in (REG, EXE):
+            leaf = (m, rng.choice([POOL_IDS[3], POOL_IDS[4], POOL_IDS[5], POOL_IDS[6]]))
+            d[p] = (m, rng.choice([POOL_IDS[3], POOL_IDS[4], POOL_IDS[5]]))
+        tmp = dict(d)
+        if kind != "copy":
+            del tmp[p]
+            if kind == "rename-edit":
+                leaf = (leaf[0], leaf[1])
+        if not add_path(tmp, q, leaf):
+            return None
+        d.clear()
+        d.update(tmp)
+    elif kind == "swap":
+        q = rng.choice(paths)
+        d[p], d[q] = d[q], d[p]
+    return kind
+
+
+def to_listing(rng, d):
+    l = [(p, m, i) for p, (m, i) in d.items()]
+    rng.shuffle(l)
+    return l
+
+
+def gen_pair(rng):
+    """(kind tag, listing a, listing b)"""
+    r = rng.random()
+    if r < 0.12:
+        return "independent", to_listing(rng, gen_listing(rng)), to_listing(rng, gen_listing(rng))
+    if r < 0.16:
+        a = gen_listing(rng)
+        return "identical", to_listing(rng, a), to_listing(rng, a)
+    deep = r > 0.9
+    a = gen_listing(rng, deep=deep)
+    b = dict(a)
+    kinds = []
+    for _ in range(rng.choice([1, 1, 1, 2, 3, 5])):
+        k = mutate(rng, b)
+        if k:
+            kinds.append(k)
+    tag = "+".join(sorted(set(kinds))) if kinds else "noop"
+    if len(kinds) > 2:
+        tag = "multi"
+    if deep:
+        tag = "deep:" + tag
+    return tag, to_listing(rng, a), to_listing(rng, b)
+
+
+def gen_filters(rng, a, b):
+    paths = sorted({p for p, _, _ in (a or []) + (b or [])})
+    cands = set()
+    for p in paths:
+        c = comps(p)
+        for k in range(1, len(c) + 1):
+            cands.add(b"/".join(c[:k]))
+    cands = sorted(cands) or [b"a"]
+    out = []
+    for _ in range(2):
+        f = [rng.choice(cands) for _ in range(rng.choice([1, 1, 2]))]
+        if rng.random() < 0.15:
+            f.append(rng.choice([b"zz", b"a/", b"", b"a/b/c/d", b"a."]))
+        out.append(f)
+    return out
+
+
+def gen_lookups(rng, a):
+    paths = sorted({p for p, _, _ in (a or [])})
+    out = {b"", b"a", b"a/b", b"nope", b"a/b/c"}
+    for p in paths[:6]:
+        out.add(p)
+        out.add(p + b"/x")
+        c = comps(p)
+        out.add(b"/".join(c[:-1]))
+        if rng.random() < 0.2:
+            out.add(p + b"/")
+            out.add(b"/" + p)
+            out.add(p.replace(b"/", b"//"))
+    out.add(b"/")
+    return sorted(out)
